@@ -374,6 +374,84 @@ pub fn c41_net_forward_ref_cycle<'a>(p2: &Process<'a, P2>, a: Stream<u32, P<'a>>
     complete.complete(back);
 }
 
+// ------------------------------------------------------------------------------------ stages
+// typed building blocks for the generated compositions (src/generated.rs, written by
+// tools/hydrob.py from VERIF_SEED): every stage maps an unbounded totally ordered u32 stream of
+// a process to another one, using the given tick
+
+pub type S<'a> = Stream<u32, P<'a>>;
+pub type T<'a> = Tick<P<'a>>;
+type TO = hydro_lang::live_collections::stream::TotalOrder;
+
+pub fn st_map<'a>(s: S<'a>, _t: &T<'a>) -> S<'a> {
+    s.map(q!(|x| x.wrapping_mul(3) % 17))
+}
+pub fn st_filter<'a>(s: S<'a>, _t: &T<'a>) -> S<'a> {
+    s.filter(q!(|x| *x % 3 != 0))
+}
+pub fn st_scan<'a>(s: S<'a>, _t: &T<'a>) -> S<'a> {
+    s.scan(q!(|| 0u32), q!(|acc, x| { *acc = (*acc + x) % 101; Some(*acc) }))
+}
+pub fn st_tick_sum<'a>(s: S<'a>, t: &T<'a>) -> S<'a> {
+    s.batch(t, nondet!(/** generated */)).fold(q!(|| 0u32), q!(|acc, x| *acc += x)).into_stream().all_ticks()
+}
+pub fn st_tick_running<'a>(s: S<'a>, t: &T<'a>) -> S<'a> {
+    let (complete, prev) = t.cycle::<Stream<u32, _, _>, _>();
+    let cur = s.batch(t, nondet!(/** generated */)).chain(prev).fold(q!(|| 0u32), q!(|acc, x| *acc = (*acc + x) % 1009)).into_stream();
+    complete.complete_next_tick(cur.clone());
+    cur.all_ticks()
+}
+pub fn st_prev_tick<'a>(s: S<'a>, t: &T<'a>) -> S<'a> {
+    s.batch(t, nondet!(/** generated */)).defer_tick().all_ticks()
+}
+pub fn st_two_defers<'a>(s: S<'a>, t: &T<'a>) -> S<'a> {
+    let b = s.batch(t, nondet!(/** generated */));
+    let p1 = b.clone().defer_tick();
+    let p2 = b.clone().defer_tick().map(q!(|x| x + 1));
+    b.chain(p1).chain(p2).all_ticks()
+}
+pub fn st_top_fold_snapshot<'a>(s: S<'a>, t: &T<'a>) -> S<'a> {
+    let total = s.clone().fold(q!(|| 0u32), q!(|acc, x| *acc = (*acc + x) % 1009));
+    s.batch(t, nondet!(/** generated */))
+        .cross_singleton(total.snapshot(t, nondet!(/** generated */)))
+        .map(q!(|(x, tot)| (x + tot) % 1009))
+        .all_ticks()
+}
+pub fn st_tick_unique_sort<'a>(s: S<'a>, t: &T<'a>) -> S<'a> {
+    s.batch(t, nondet!(/** generated */)).unique().sort().all_ticks()
+}
+pub fn st_self_join<'a>(s: S<'a>, t: &T<'a>) -> S<'a> {
+    let b = s.batch(t, nondet!(/** generated */));
+    let keyed = b.clone().map(q!(|x| (x % 4, x)));
+    b.map(q!(|x| (x % 4, x)))
+        .join(keyed)
+        .map(q!(|(_, (x, y))| (x + y) % 97))
+        .all_ticks()
+        .assume_ordering::<TO>(nondet!(/** generated */))
+}
+pub fn st_seen_filter<'a>(s: S<'a>, t: &T<'a>) -> S<'a> {
+    let (complete, seen) = t.cycle::<Stream<u32, _, _>, _>();
+    let fresh = s.batch(t, nondet!(/** generated */)).unique().filter_not_in(seen.clone());
+    complete.complete_next_tick(seen.chain(fresh.clone()));
+    fresh.all_ticks()
+}
+pub fn st_fanout_merge<'a>(s: S<'a>, _t: &T<'a>) -> S<'a> {
+    let a = s.clone().map(q!(|x| x + 1));
+    let b = s.filter(q!(|x| *x % 2 == 0));
+    a.merge_unordered(b).assume_ordering::<TO>(nondet!(/** generated */))
+}
+pub fn st_forward_ref_defer<'a>(s: S<'a>, t: &T<'a>) -> S<'a> {
+    let p = s.location().clone();
+    let (complete, fwd) = p.forward_ref::<Stream<u32, _, _>>();
+    let delayed = fwd.batch(t, nondet!(/** generated */)).defer_tick().filter(q!(|x| *x < 50)).map(q!(|x| x + 10)).all_ticks();
+    let merged = s.merge_unordered(delayed).assume_ordering::<TO>(nondet!(/** generated */));
+    complete.complete(merged.clone());
+    merged
+}
+
+pub mod generated;
+pub use generated::*;
+
 // ------------------------------------------------------------------------------------ C31
 
 /// the batch every slice observes, as one Vec per slice
